@@ -16,15 +16,16 @@ Segments of a case are separated by ` | `, operations of a `row` case by ` ; `. 
 Cases (`<label>` names the concrete Rust type on the harness side and is ignored here):
   `ser <label> <variant> | C | T | V`      → `ok <cell hex>` | `err tc|ser <path>`
   `tc <label> | C | T`                     → `ok` | `err <path>`
+  `deser <label> | C | T`  deserialize of a valid cell of T WITHOUT type_check → `safe` | `panics`
   `tcrow <label> | untyped or n C… | m T…` → `ok` | `err <path>`
   `rows <label> | untyped or n C… | m T… | <rows>`  (a parsed RESULT/Rows, then rows_iter::<T>())
        → `ok rows=<n>` | `typecheck-err <path>`
   `row OP ; OP ; …` with OP ::= `add <label> <variant> | T | V` | `fill n` (n nulls)
        → one `ok:<count>:<len>` / `err(<class> <path>):<count>:<len>` / `toomany:<count>:<len>` per op, then
          `= cells=<parsed cell count> <buffer hex or digest>`
-  `pager <target> <ext> <skip> | <prepared cols> | <page> | …`  the pager's typed stream over pages with their own
+  `pager <target> <ext> <skip> <stop|all> | <prepared cols> | <page> | …`  the pager's typed stream over pages with their own
        metadata (cols ::= n (<name> <type>)…, page ::= <rows> nometa | <rows> <newid> cols)
-       → `ctor:TypeCheck` | `rows=<delivered> fin=end|TypeCheck`
+       → `ctor:TypeCheck` | stop: `rows=<delivered> fin=end|TypeCheck` | all (polls through error items): `seq=r2e3r1 fin=end`
   `bindrow seq|tup3|map | name T ; name T … | [name] <ref> V ; …`  SerializeRow through from_serializable
        → `ok count=… cells=… <digest>` | `err WrongColumnCount` | `err ValueMissingForColumn n` | `err NoColumnWithName n`
          | `err col n <class> <path>` | `err TooManyValues`
@@ -366,6 +367,41 @@ def runBind (toks : List String) : String :=
     else "bad-case"
   | _ => "bad-case"
 
+/-! ### `deser`: `deserialize` without `type_check` -/
+
+/-- The panic site is at the ROOT of the carrier (under the transparent layers): it fires for every non-null
+cell, whatever it contains.  Deeper sites are only reached if everything decoded before them succeeded. -/
+def rootPanics : Carrier → CqlTy → Bool
+  | .opt c, t => rootPanics c t
+  | .maybeEmpty c, t => rootPanics c t
+  | .vec _, t => match t with
+    | .list _ => false | .set _ => false | .vector _ _ => false | _ => true
+  | .hashSet _, t => match t with
+    | .list _ => false | .set _ => false | _ => true
+  | .btreeSet _, t => match t with
+    | .list _ => false | .set _ => false | _ => true
+  | .hashMap _ _, t => match t with
+    | .map _ _ => false | _ => true
+  | .btreeMap _ _, t => match t with
+    | .map _ _ => false | _ => true
+  | .tuple cs, t => match t with
+    | .tuple ts => cs.length != ts.length | _ => true
+  | _, _ => false
+
+/-- Checker: `safe` when the model says no site is reachable, `panics` when the site is at the root, and for a
+deeper site the implementation's own line (it panics iff decoding got that far). -/
+def runDeser (case impl : String) : String :=
+  match segs case with
+  | [_, cseg, tseg] =>
+    match carOf cseg, tyOf tseg with
+    | some c, some t =>
+      if !deserPanics c t then "safe"
+      else if rootPanics c t then "panics"
+      else if impl == "panics" || impl == "safe" then impl
+      else "REJECT expected-panics-or-safe"
+    | _, _ => "bad-case"
+  | _ => "bad-case"
+
 /-! ### `bindrow` / `frame`: row-level binding and `new_from_frame` -/
 
 open ScyllaVerif.C17Bind in
@@ -477,7 +513,7 @@ def runPager (case : String) : String :=
   match segs case with
   | hd :: prep :: pageSegs =>
     match words hd, parseCols (words prep), pageSegs.mapM parsePage with
-    | ["pager", target, ext, _skip], some prepared, some pages =>
+    | ["pager", target, ext, _skip, consumer], some prepared, some pages =>
       -- `S/<target>`: the same stream obtained through Session::execute_iter
       match targetCheck (if target.startsWith "S/" then (target.drop 2).toString else target) with
       | none => "bad-case"
@@ -485,11 +521,24 @@ def runPager (case : String) : String :=
         match typedStream check (effectiveCols prepared (ext == "1") pages) with
         | none => "ctor:TypeCheck"
         | some outs =>
-          let rows := (outs.filter (fun o => match o with | .row _ => true | _ => false)).length
-          let fin := match outs.getLast? with
-            | some (.typeErr _) => "TypeCheck"
-            | _ => "end"
-          s!"rows={rows} fin={fin}"
+          if consumer == "stop" then
+            let seen := untilFirstError outs
+            let rows := (seen.filter (fun o => match o with | .row _ => true | _ => false)).length
+            let fin := match seen.getLast? with
+              | some (.typeErr _) => "TypeCheck"
+              | _ => "end"
+            s!"rows={rows} fin={fin}"
+          else if consumer == "all" then
+            -- run-length encoding of the items: r<n> rows, e<n> type-check errors
+            let step (acc : List (Bool × Nat)) (o : StreamOut) : List (Bool × Nat) :=
+              let isRow := match o with | .row _ => true | _ => false
+              match acc with
+              | (b, n) :: r => if b == isRow then (b, n + 1) :: r else (isRow, 1) :: (b, n) :: r
+              | [] => [(isRow, 1)]
+            let runs := (outs.foldl step []).reverse
+            let rle := String.join (runs.map fun (b, n) => (if b then "r" else "e") ++ toString n)
+            s!"seq={if rle.isEmpty then "-" else rle} fin=end"
+          else "bad-case"
     | _, _, _ => "bad-case"
   | _ => "bad-case"
 
@@ -538,6 +587,7 @@ def run (case impl : String) : String :=
       | _, _ => "bad-case"
     | _ => "bad-case"
   | some "pager" => runPager case
+  | some "deser" => runDeser case impl.trimAscii.toString
   | some "bindrow" => runBindRow case
   | some "frame" => runFrame (words case).tail
   | some "rows" =>
